@@ -43,6 +43,8 @@ def run(ctx, replay):
     if len(cases) != a.distinct:
         raise vlib.MachineryError("export: %d cases for %d states" % (len(cases), a.distinct))
     mruns = [a]
+    wide = [c for c in cases if len(c["ids"]) > 3]      # the wide structs (all fields at once) are few: always replayed
+    cases = [c for c in cases if len(c["ids"]) <= 3]
     if thorough:
         b = ctx.tlc_model("MC_Unmarshal", None, cfg_text=CFG % (3, "FALSE"), label="MC_Unmarshal fields<=3 (model only)", workers=16, timeout=3400)
         mruns.append(b)
@@ -51,6 +53,7 @@ def run(ctx, replay):
     else:
         random.Random(ctx.seed).shuffle(cases)
         cases = cases[:40000]
+    cases = wide + cases
     for i, c in enumerate(cases):
         c["rot"] = i + ctx.seed
     traces, sums = vlib.drive_cases(ctx, "c16", cases, nchunks=8)
